@@ -165,6 +165,35 @@ Proof.
   apply (readable_storage_reads_back q ct ro bs 0 f (wrote_car_file _ _ _ _ Hw)); assumption.
 Qed.
 
+(* the same with the content conditions in decidable form (what the harness evaluates per case) *)
+Definition ra_limits_dec (q : qopts) (ro : option (list bytes)) (bs : list block) (ct : container) : Prop :=
+  roots_ok (hdr_roots ro) /\ limits_ok q ro bs 0 /\
+  (q_codec q = codec_sorted \/ q_codec q = codec_mh_sorted) /\ 10 <= q_maxh q /\
+  (ct <> CV1 -> N.of_nat (length bs) < two31) /\
+  (q_storeid q = true -> index_wid q ct None = true) /\ consistentb bs && id_consistentb bs = true.
+
+Lemma ra_limits_of_dec q ro bs ct : ra_limits_dec q ro bs ct -> ra_limits q ro bs ct.
+Proof.
+  intros (H1 & H2 & H3 & H4 & H5 & H6 & H7). apply andb_true_iff in H7. destruct H7 as [Hc Hi].
+  split; [exact H1|]. split; [exact H2|]. split; [exact H3|]. split; [exact H4|]. split; [exact H5|]. split; [exact H6|].
+  split; [apply consistentb_sound; exact Hc|apply id_consistentb_sound; exact Hi].
+Qed.
+
+Theorem rt_readonly_dec q f ro bs ct :
+  wrote f ro bs ct -> ra_limits_dec q ro bs ct -> blen f < two63 ->
+  exists s, ro_open dec_header_canon q f None = Ok s /\
+    ro_roots dec_header_canon s = OKeys (hdr_roots ro) /\
+    ro_keys dec_header_canon s = KKeys (ref_keys (q_whole q) bs) None /\
+    forall c d p, In (c, d) bs -> cid_parse c = Some p -> ro_get s (key_of (q_whole q) c p) = OBytes d.
+Proof. intros Hw Hd. apply (rt_readonly q f ro bs ct Hw (ra_limits_of_dec q ro bs ct Hd)). Qed.
+
+Theorem rt_storage_dec q f ro bs ct :
+  wrote f ro bs ct -> ra_limits_dec q ro bs ct -> blen f < two63 ->
+  exists s, sto_open dec_header_canon q f = Ok s /\
+    sto_roots s = OKeys (hdr_roots ro) /\
+    forall c d p, In (c, d) bs -> cid_parse c = Some p -> sto_get s (key_of (q_whole q) c p) = OBytes d.
+Proof. intros Hw Hd. apply (rt_storage q f ro bs ct Hw (ra_limits_of_dec q ro bs ct Hd)). Qed.
+
 (* ---- all writers emit the same payload for the same logical content ---------------------------------------- *)
 Theorem payload_identical maxh f1 f2 ro bs ct1 ct2 :
   wrote f1 ro bs ct1 -> wrote f2 ro bs ct2 ->
